@@ -36,16 +36,19 @@ TABLE = {
           ('C08_icon_cached', 'C08_icon_cached'), ('C08_hardware_id', 'C08_hwid_prefix')]),
  'C09': ('BlockFun PropsMapper SystemRefinement', 'C09: a topology Reset returns the responder to fresh-start behaviour',
          [('C09_normalisation_step', 'C09_norm_step'), ('C09_reset_gives_fresh', 'C09_reset_fresh'), ('C09_after_reset_like_fresh', 'C09_history'), ('C09_one_run', 'C09_history_run'), ('C09_on_the_buffer_level_model', 'C09_buffer_level')]),
- 'C10': ('BlockFun PropsEmit', 'C10: probes emitted by one responder are observed by a peer responder',
-         [('C10_emitted_frame_parses', 'parse_probe_frame'), ('C10_peer_records', 'C10_peer'), ('C10_peer_reports', 'C10_reported'), ('C10_peer_reports_later', 'C10_reported_later')]),
+ 'C10': ('BlockFun PropsEmit EndToEnd', 'C10: probes emitted by one responder are observed by a peer responder',
+         [('C10_emitted_frame_parses', 'parse_probe_frame'), ('C10_peer_records', 'C10_peer'), ('C10_peer_reports', 'C10_reported'), ('C10_peer_reports_later', 'C10_reported_later'),
+          ('C10_from_the_emit_to_the_peers_report', 'C10_system'), ('C10_whatever_the_emitter_sends', 'C10_system_sent'), ('C10_on_one_wire', 'C10_system_run')]),
  'C17': ('BlockFun Isolation SystemRefinement RegistryProofs', 'C17: interfaces are isolated (sequential: proved; concurrent registration: refuted = known finding)',
          [('C17_interleaving_isolated', 'isolation'), ('C17_registry_isolated', 'reg_isolation'), ('C17_whole_system_refines_pure_histories', 'system_refinement_clock'), ('C17_on_the_buffer_level_model', 'C17_buffer_level'), ('C17_registry_sequential_ok', 'registry_sequential_ok'),
           ('C17_registry_lost_update', 'C17_registry_refuted'), ('C17_registry_losing_interleavings', 'registry_all_interleavings')]),
- 'C18': ('BlockFun BlockSafe PropsMapper FaultProofs', 'C18: platform faults degrade gracefully',
+ 'C18': ('BlockFun BlockSafe PropsMapper FaultProofs EndToEnd', 'C18: platform faults degrade gracefully',
          [('C18_no_fault_any_oracle', 'safe_history'), ('C18_step_any_oracle', 'safe_step'), ('C18_reset_restores_fresh_any_oracle', 'reset_any_oracle'), ('C18_then_behaves_like_fresh', 'C09_history'),
-          ('C18_constructors_report_failure', 'ctor_any_oracle')]),
- 'C19': ('BlockFun BlockSafe FaultProofs', 'C19: bounded memory, nothing leaked',
-         [('C19_ledger_is_what_records_hold', 'safe_history'), ('C19_bytes_bounded', 'reg_bytes_bound'), ('C19_count_bounded', 'reg_count_bound'), ('C19_after_reset_only_record', 'reset_any_oracle')]),
+          ('C18_constructors_report_failure', 'ctor_any_oracle'),
+          ('C18_fault_history_then_reset_then_like_fresh', 'C18_recovery'), ('C18_reset_frame_any_oracle_registry_level', 'reset_frame_any_oracle')]),
+ 'C19': ('BlockFun BlockSafe FaultProofs EndToEnd', 'C19: bounded memory, nothing leaked',
+         [('C19_ledger_is_what_records_hold', 'safe_history'), ('C19_bytes_bounded', 'reg_bytes_bound'), ('C19_count_bounded', 'reg_count_bound'), ('C19_after_reset_only_record', 'reset_any_oracle'),
+          ('C19_any_history_from_start_bounded', 'C19_history_bound'), ('C19_retained_per_interface', 'C19_retained_per_interface')]),
 }
 def main():
     only = sys.argv[1:]
